@@ -144,6 +144,10 @@ def prepare_ops(spec, dev, tmp):
     for i, op in enumerate(spec['ops']):
         api = op['api']
         a = {}
+        if op.get('zero_ids'):
+            dev.zero_ops[i] = op['zero_ids']
+        if op.get('stray_zero'):
+            dev.stray_zero_ops[i] = bytes.fromhex(op['stray_zero'])
         if api in ('shell', 'exec_out', 'streaming_shell', 'root'):
             cmd = op.get('cmd', 'c%d' % i)
             chunks = [bytes.fromhex(c) if isinstance(c, str) else bytes(c) for c in op.get('chunks', [])]
@@ -552,6 +556,8 @@ def gen_session(rng, idx, big=False, adversarial=False, ops_max=6, allow=('shell
         for op in ops:
             if op['api'] in ('shell', 'exec_out', 'streaming_shell') and rng.random() < 0.3 and op['chunks']:
                 op['chunks'].insert(rng.randrange(len(op['chunks']) + 1), '')          # a zero-length WRITE
+            if op['api'] not in ('root', 'reboot') and rng.random() < 0.15:
+                op['zero_ids'] = rng.choice(['a0', 'a1', 'both'])                      # a legacy adbd: data packets with zero ids
             if op['api'] == 'pull' and rng.random() < 0.4:
                 op['dest'] = ['raise', rng.randint(1, 3)]
                 op['data_sizes'] = [rng.choice([1, 50, 4096]) for _ in range(6)] + [65536] * 64
